@@ -1,4 +1,76 @@
+// Kani harnesses for datafusion/common/src/rounding.rs (property C23: the float
+// successor / predecessor used for strict interval bounds never skip a value).
 #[allow(unused_qualifications, unused_imports, dead_code, clippy::all)]
 mod verif_kani {
     use super::*;
+
+    macro_rules! succ_pred_harness {
+        ($name_up:ident, $name_down:ident, $name_rt:ident, $f:ty, $u:ty, $signbit:expr) => {
+            /// every bit pattern of x, and every bit pattern of a candidate z in between
+            #[kani::proof]
+            fn $name_up() {
+                let x = <$f>::from_bits(kani::any::<$u>());
+                let z = <$f>::from_bits(kani::any::<$u>());
+                let y = next_up(x);
+                if x.is_nan() {
+                    assert!(y.to_bits() == x.to_bits(), "C23.next_up.nan_is_fixed_point");
+                } else if x == <$f>::INFINITY {
+                    assert!(y == <$f>::INFINITY, "C23.next_up.pos_infinity_is_fixed_point");
+                } else {
+                    assert!(!y.is_nan(), "C23.next_up.never_produces_nan");
+                    assert!(y >= x, "C23.next_up.not_below_argument");
+                    // soundness core: no representable value lies strictly between x and next_up(x)
+                    assert!(!(x < z && z < y), "C23.next_up.skips_no_value");
+                    // strict successor except on -0.0, whose successor is +0.0 (numerically equal: conservative)
+                    assert!(y > x || x.to_bits() == $signbit, "C23.next_up.strictly_above_except_negative_zero");
+                    if x.to_bits() == 0 { assert!(y.to_bits() == 1, "C23.next_up.plus_zero_goes_to_smallest_subnormal"); }
+                    if x.to_bits() == $signbit { assert!(y.to_bits() == 0, "C23.next_up.minus_zero_goes_to_plus_zero"); }
+                }
+                kani::cover!(x < 0.0 && y > x);
+                kani::cover!(x > 0.0 && y == <$f>::INFINITY);
+            }
+
+            #[kani::proof]
+            fn $name_down() {
+                let x = <$f>::from_bits(kani::any::<$u>());
+                let z = <$f>::from_bits(kani::any::<$u>());
+                let y = next_down(x);
+                if x.is_nan() {
+                    assert!(y.to_bits() == x.to_bits(), "C23.next_down.nan_is_fixed_point");
+                } else if x == <$f>::NEG_INFINITY {
+                    assert!(y == <$f>::NEG_INFINITY, "C23.next_down.neg_infinity_is_fixed_point");
+                } else {
+                    assert!(!y.is_nan(), "C23.next_down.never_produces_nan");
+                    assert!(y <= x, "C23.next_down.not_above_argument");
+                    assert!(!(y < z && z < x), "C23.next_down.skips_no_value");
+                    assert!(y < x || x.to_bits() == 0, "C23.next_down.strictly_below_except_positive_zero");
+                    if x.to_bits() == 0 { assert!(y.to_bits() == $signbit, "C23.next_down.plus_zero_goes_to_minus_zero"); }
+                    if x.to_bits() == $signbit { assert!(y.to_bits() == ($signbit | 1), "C23.next_down.minus_zero_goes_to_smallest_negative_subnormal"); }
+                }
+                kani::cover!(x > 0.0 && y < x);
+                kani::cover!(x < 0.0 && y == <$f>::NEG_INFINITY);
+            }
+
+            /// inverse pair: next_down(next_up(x)) == x for every finite x (bit-exact away from zero)
+            #[kani::proof]
+            fn $name_rt() {
+                let x = <$f>::from_bits(kani::any::<$u>());
+                kani::assume(!x.is_nan() && x != <$f>::INFINITY && x != <$f>::NEG_INFINITY);
+                let up = next_up(x);
+                if up != <$f>::INFINITY {
+                    let back = next_down(up);
+                    assert!(back == x, "C23.round_trip.down_of_up_is_identity");
+                    if x != 0.0 && up != 0.0 { assert!(back.to_bits() == x.to_bits(), "C23.round_trip.bit_exact_away_from_zero"); }
+                }
+                let down = next_down(x);
+                if down != <$f>::NEG_INFINITY {
+                    let back = next_up(down);
+                    assert!(back == x, "C23.round_trip.up_of_down_is_identity");
+                }
+                kani::cover!(up != <$f>::INFINITY && x > 1.0);
+            }
+        };
+    }
+    succ_pred_harness!(c23_next_up_f64, c23_next_down_f64, c23_round_trip_f64, f64, u64, 0x8000_0000_0000_0000u64);
+    succ_pred_harness!(c23_next_up_f32, c23_next_down_f32, c23_round_trip_f32, f32, u32, 0x8000_0000u32);
 }
